@@ -8,10 +8,12 @@
 //!    neutral event type `Ev`), so models and oracles are written once.
 //!  * `S2<M>`: a miniature of what `EventLoop::select`/`poll`/`clean` and `Network::readb`
 //!    do *around* the state machine, so that only histories the event loop can produce are
-//!    fed: the request gate (`inflight < limit && collision.is_none()`, bypassed by
-//!    `pending`), the pending queue filled by `clean()` and cleared when the CONNACK has no
-//!    session, the read batch (at most 9 packets, replies buffered and flushed only when
-//!    the whole batch was handled), immediate write+flush on the request / ping branch.
+//!    fed: the request gate (`!collision && (!pending.is_empty() || inflight < limit)`), the
+//!    pending queue filled by `clean()` (in-flight work in front) and cleared when the CONNACK
+//!    has no session (3.1.1: packet ids start over), the read batch (at most 9 packets, replies
+//!    buffered and flushed only when the whole batch was handled), immediate write+flush on
+//!    the request / ping branch. There is no request channel: a request that is not taken is
+//!    gone (requests `clean()` drains from the channel are exercised on S3).
 //!    This layer is substrate (what is fed and what counts as "written"), never oracle.
 use crate::common::{guarded, PanicInfo};
 use serde::{Deserialize, Serialize};
@@ -1062,9 +1064,11 @@ impl<M: Machine> S2<M> {
         Some(self.outgoing(Via::Request, M::make_req(p)))
     }
 
-    /// One carried-over request (`next_request` pops `pending` first, whatever the gate says)
+    /// One carried-over request: `select()` enables the request branch for `pending` whatever
+    /// the window says, but not while a collision is parked
+    /// (`!collision && (!pending.is_empty() || !inflight_full)`)
     pub fn replay_one(&mut self) -> Option<Call> {
-        if !self.connected {
+        if !self.connected || self.st.collision().is_some() {
             return None;
         }
         let req = self.pending.pop_front()?;
